@@ -4,7 +4,7 @@ c11_tie = importlib.util.module_from_spec(_spec); _spec.loader.exec_module(c11_t
 T = "GeomV.C12."
 CFG = {
     "id": "C12",
-    "lean_modules": ["GeomV.C12.Proofs"] + c11_tie.C12_TIES,
+    "lean_modules": ["GeomV.C12.Proofs", "GeomV.C12.ProofsExt"] + c11_tie.C12_TIES,
     "lean_dirs": ["C11", "C12"],
     "exe": "geomv_c12",
     "go_cmd": "c12",
@@ -12,6 +12,8 @@ CFG = {
     "theorems": [T + n for n in [
         "C12_minDist_spec", "C12_minMaxDist_spec", "C12_prune_sound_k1", "C12_nn", "C12_empty",
         "C12_insertNearest_topk", "C12_knn", "C12_knn_one", "C12_knn_all", "C12_stableOrder_ok", "C12_history", "C12_knn_empty",
+        # phase 3 (ProofsExt): signed k; sort.Sort as any program of Swap calls; literal sortEntries/pruneEntries = branches
+        "C12_knn_int", "C12_sort_contract", "C12_prune_lit", "C12_nn_sorter", "C12_knn_sorter",
         # T1: minDist / minMaxDist regenerated from index/rtree/geom.go of the tree under test = the model's
         "C12_tie_minDist", "C12_tie_minMaxDist", "C12_minDist_spec_src", "C12_minMaxDist_spec_src"]],
     "trusted_base": [
@@ -24,20 +26,24 @@ CFG = {
         "pruneEntries, minDist, minMaxDist) on the C11 tree model; tied to /repo/index/rtree by the correspondence run: the final tree "
         "of every history is compared exactly with the C11 model's tree (verif hook dump) and every answer with the model's answer "
         "(object identity when MaxChildren <= 11, where sort.Sort is a stable insertion sort; distances otherwise)",
-        "math.Sqrt is monotone and exact comparisons of squared distances decide the comparisons of distances on the generated grids "
-        "(integer/half-integer coordinates, squared distances below 2^53)",
+        "float64 arithmetic of minDist/minMaxDist is exact on the generated inputs (dyadic coordinates; every square, sum and difference "
+        "representable: below 2^53 times the square of the unit), so the comparisons of the float squared distances are the model's Rat "
+        "comparisons; since fix 2ded5fb the code compares the squared distances themselves (no math.Sqrt left in the search)",
+        "sort.Sort acts on the entrySlice only through Len/Less/Swap with indices below Len (sort.Interface contract); then "
+        "C12_sort_contract gives the permutation/pairing that the theorems need",
         "the C11 trusted base (tree model, hook, harness)",
     ],
     "assumptions": [
-        "every object box contains a point (min <= max)",
-        "the visiting order produced by sort.Sort is a permutation of the entries (any tie-breaking)",
+        "the box of every STORED object contains a point (min <= max); used only where MINMAXDIST pruning runs (NearestNeighbor, k = 1)",
+        "the visiting order is a permutation of the entries (any tie-breaking) — proved for every program of in-range Swap calls (C12_sort_contract)",
         "trees are well-formed in the sense of C11 (established for every reachable tree by C11_reachable)",
     ],
     "rule": "C11-style histories (grow / region delete / capacity-boundary churn; (min,max) in {(2,4),(2,5),(3,6),(3,7),(4,8),(25,50)}; "
             "pointer, geom.Point and *geom.Bounds objects; coincident and degenerate boxes; duplicates inserted and deleted once; "
-            "dyadic coordinate units 1, 1/2, 1/8, 1/64, 1/1024, 16 and a jittered lattice in the unit square, so that distances < 1 occur) followed by 12-14 queries each: points at box "
+            "dyadic coordinate units 1, 1/2, 1/8, 1/64, 1/1024, 16 and a jittered lattice in the unit square, so that distances < 1 occur; "
+            "far clusters: squared distances in [2^51,2^53) that differ by 1..4, closer than the float64 grid of their square roots, at scales 2^-40..2^60) followed by 12-14 queries each: points at box "
             "centres (half-integers), corners, on edges, just outside, far outside, grid points prone to ties, random; k in "
-            "{NearestNeighbor, 1, 2, 3, size-1, size, size+3, random in 1..size+3}. One case = one history with all its queries; class = shape-kind-params-height",
+            "{NearestNeighbor, 1, 2, 3, size-1, size, size+3, random in 1..size+3; k = 0 and negative k as correspondence only}. One case = one history with all its queries; class = shape-kind-params-height",
     "timeout": {"quick": 900, "thorough": 3000},
     "explanation": "SPEC verdicts: Spec.specNN / Spec.specKNN evaluated on the implementation's answer against the multiset of objects "
                    "stored according to the history semantics (ties by distance, not identity).",
